@@ -203,9 +203,9 @@ def reindexLikeDs {α} (nan : α) (ds : Ds α) (tmpl : List Axis) : Except Err (
     | some t => reindexAxisDs obj ax.name t.labels t.kind nan .f
     | none => pure obj) ds
 
-/-- `Dataset._binary_op(func, other)` (op.reindex = True).  `other.reindex_like(self)` is evaluated for its
-exceptions only: its result is dropped by the Python code (the per-variable `DimArray._binary_op` aligns again).
-For two Datasets the result holds the keys of `self` that `other` has as well (double loop over the keys). -/
+/-- `Dataset._binary_op(func, other)`: the per-variable `DimArray._binary_op` aligns the operands' axes (the
+Dataset code no longer evaluates a discarded `other.reindex_like(self)`).  For two Datasets the result holds the keys
+of `self` that `other` has as well (double loop over the keys); every result is stored through `__setitem__`. -/
 def binaryOpDs {α} (nan : α) (f : α → α → α) (self : Ds α) (rhs : Operand α) : Except Err (Ds α) :=
   match rhs with
   | .other => .error .assertion
@@ -255,8 +255,22 @@ def stackDs {α} [Inhabited α] (nan : α) (datasets : List (Ds α)) (axis : Opt
       let array ← stack nan arrays (some name) keys keyKind false false
       setItem res v array) {}
 
-/-- `concatenate_ds(datasets, axis, align=False)`: the Datasets must hold the same variables; every variable is
-`concatenate`d (align=False) along `axis` - a name, or a position *in the variable* - and stored through
+/-- `ds.axes[axis].name` (`Axes.__getitem__`): a name is looked up with `dims.index` (ValueError when the Dataset
+has no such dimension), an integer is `list.__getitem__` (negative positions count from the end, IndexError out of
+range) -/
+def dsAxisName {α} (ds : Ds α) (axis : DimKey) : Except Err String := do
+  let p ← axisPos ds.axes axis
+  pure (ds.dims.getD p "")
+
+/-- `datasets[0].axes[axis].name` (IndexError on an empty sequence) -/
+def firstAxisName {α} (datasets : List (Ds α)) (axis : DimKey) : Except Err String :=
+  match datasets with
+  | d0 :: _ => dsAxisName d0 axis
+  | [] => .error .index
+
+/-- `concatenate_ds(datasets, axis, align=False)`: the Datasets must hold the same variables; `axis` - a name, or a
+position *in the first Dataset's dimensions* (also the default 0) - is resolved to a dimension name
+(`datasets[0].axes[axis].name`); every variable is `concatenate`d (align=False) along that NAME and stored through
 `__setitem__`; a variable that lacks the dimension makes `concatenate` raise -/
 def concatenateDs {α} (nan : α) (datasets : List (Ds α)) (axis : DimKey) : Except Err (Ds α) := do
   -- find the list of variables common to all datasets
@@ -264,13 +278,15 @@ def concatenateDs {α} (nan : α) (datasets : List (Ds α)) (axis : DimKey) : Ex
       match vs with
       | none => (pure (some ds.keys) : Except Err (Option (List String)))
       | some v => if sameKeys ds.keys v then pure (some v) else .error .assertion) none
+  -- axis name: a position refers to the dataset's dimensions, not to each variable's
+  let name ← firstAxisName datasets axis
   match variables with
   | none => .error .type          -- `for v in None`
   | some vars =>
     -- Compute concatenated dataset
     vars.foldlM (fun (res : Ds α) v => do
       let arrays ← gather datasets v
-      let array ← concatenate nan arrays axis false false
+      let array ← concatenate nan arrays (.name name) false false
       setItem res v array) {}
 
 /-- `Dataset.copy()`: `Dataset({k: v})` of the variables, then the metadata -/
